@@ -1,15 +1,12 @@
 SPECIFICATION Spec
-CONSTANTS DataPlane = "off"
+CONSTANTS DataPlane = "router"
           N = 3
-          MaxTime = 17
+          MaxTime = 5
           Silent = 0
-          FaultKind = "lossy"
+          FaultKind = "silent"
           DialKind = "reconnect"
           MAX_RETRIES <- McRetries
           LINGER <- McLinger
           OWN_RESET <- McOwnReset
-INVARIANT NodeInvariants
-INVARIANT ClaimsAreLastAnnouncement
-INVARIANT OwnNeverDialled
-INVARIANT RecoversBy
+INVARIANT NothingCached
 CHECK_DEADLOCK FALSE
